@@ -16,6 +16,7 @@ from ..transports import Link, RngDecider, ScriptDecider, SimBudgetExceeded, Sim
 PROP = "C12"
 RUNS = {"quick": 80000, "thorough": 3000000}
 BLOCK = {"quick": 500, "thorough": 5000}
+TRACE_SAMPLE = 60  # reach probe runs single-process under settrace: keep it cheap
 SHRINK_LISTS = ["chunks", "items", "decisions", "reads"]
 RULE = (
     "one run = one seeded chunked body (1..12 chunks, sizes biased to 1,9/10,15/16,255/256,4095/4096; hex case and "
